@@ -21,6 +21,25 @@ theorem kid_lt_size {h : Heap} (hinv : Inv h) {m j : Nat} (hj : j ∈ kidIds h m
   · have := hinv.bounded m (by omega)
     unfold kidIds at hj; rw [this] at hj; simp at hj
 
+theorem walk_reach (h : Heap) : ∀ (path : List String) (i t : Nat), walk h i path = some t → Reach h i t := by
+  intro path
+  induction path with
+  | nil => intro i t hw; simp [walk] at hw; subst hw; exact Reach.refl _
+  | cons k rest ih =>
+    intro i t hw
+    simp only [walk] at hw
+    split at hw
+    · rename_i e hfind
+      have hk : e.2 ∈ kidIds h i := by
+        unfold kidIds; exact List.mem_map.mpr ⟨e, List.mem_of_find?_eq_some hfind, rfl⟩
+      exact (Reach.kid hk).trans (ih e.2 t hw)
+    · cases hw
+
+theorem live_of_reach {h : Heap} (hinv : Inv h) {i t : Nat} (hl : live h i = true) (r : Reach h i t) : live h t = true := by
+  induction r with
+  | refl => exact hl
+  | step _ hc ih => exact hinv.kidsAlive _ _ ih hc
+
 /-- a new object over existing live entries (a constructor, `__setstate__`, a lazy stack) -/
 theorem inv_alloc {h : Heap} (hinv : Inv h) (nd : LNode) (ha : nd.alive = true)
     (hk : ∀ x, x ∈ nd.kids.map (·.2) → x < h.size ∧ live h x = true)
